@@ -189,34 +189,39 @@ func init() {
 	register(
 		// ---- Annex B scanners / converters
 		target{"avc.ExtractNalusFromByteStream", false, func(in []byte, arg int) (string, func() string) {
-			sink = avc.ExtractNalusFromByteStream(in)
-			return "ok", nil
+			l := avc.ExtractNalusFromByteStream(in)
+			sink = l
+			return okv(func() string { return nalusString(l) })
 		}},
 		target{"avc.ConvertByteStreamToNaluSample", false, func(in []byte, arg int) (string, func() string) {
-			sink = avc.ConvertByteStreamToNaluSample(in)
-			return "ok", nil
+			o := avc.ConvertByteStreamToNaluSample(in)
+			sink = o
+			return okv(func() string { return hx.Hex(o) })
 		}},
 		target{"avc.GetParameterSetsFromByteStream", false, func(in []byte, arg int) (string, func() string) {
 			a, b := avc.GetParameterSetsFromByteStream(in)
 			sink = [][][]byte{a, b}
-			return "ok", nil
+			return okv(func() string { return nalusString(a) + ";" + nalusString(b) })
 		}},
 		target{"avc.ExtractNalusOfTypeFromByteStream", false, func(in []byte, arg int) (string, func() string) {
-			sink = avc.ExtractNalusOfTypeFromByteStream(avc.NaluType(arg>>1), in, arg&1 == 1)
-			return "ok", nil
+			l := avc.ExtractNalusOfTypeFromByteStream(avc.NaluType(arg>>1), in, arg&1 == 1)
+			sink = l
+			return okv(func() string { return nalusString(l) })
 		}},
 		target{"avc.GetFirstAVCVideoNALUFromByteStream", false, func(in []byte, arg int) (string, func() string) {
-			sink = avc.GetFirstAVCVideoNALUFromByteStream(in)
-			return "ok", nil
+			o := avc.GetFirstAVCVideoNALUFromByteStream(in)
+			sink = o
+			return okv(func() string { return hx.Hex(o) })
 		}},
 		target{"hevc.GetParameterSetsFromByteStream", false, func(in []byte, arg int) (string, func() string) {
 			a, b, c := hevc.GetParameterSetsFromByteStream(in)
 			sink = [][][]byte{a, b, c}
-			return "ok", nil
+			return okv(func() string { return nalusString(a) + ";" + nalusString(b) + ";" + nalusString(c) })
 		}},
 		target{"hevc.ExtractNalusOfTypeFromByteStream", false, func(in []byte, arg int) (string, func() string) {
-			sink = hevc.ExtractNalusOfTypeFromByteStream(hevc.NaluType(arg>>1), in, arg&1 == 1)
-			return "ok", nil
+			l := hevc.ExtractNalusOfTypeFromByteStream(hevc.NaluType(arg>>1), in, arg&1 == 1)
+			sink = l
+			return okv(func() string { return nalusString(l) })
 		}},
 		// ---- AVC parameter sets, slice header, SEI, configuration record
 		target{"avc.ParseSPSNALUnit", false, func(in []byte, arg int) (string, func() string) {
@@ -363,7 +368,13 @@ func init() {
 				}
 			}
 			sink = n
-			return errClass(err), nil
+			return errClass(err), func() string {
+				ss := make([]string, len(sds))
+				for i := range sds {
+					ss[i] = fmt.Sprintf("%x:%d", sds[i].Type(), len(sds[i].Payload()))
+				}
+				return strings.Join(ss, ",")
+			}
 		}},
 		// arg selects the payload type for DecodeSEIMessage on a raw payload, both codecs
 		target{"sei.DecodeSEIMessage", false, func(in []byte, arg int) (string, func() string) {
@@ -383,7 +394,12 @@ func init() {
 			if err == nil && m != nil {
 				sink = useMsgs([]sei.SEIMessage{m})
 			}
-			return errClass(err), nil
+			return errClass(err), func() string {
+				if tc, ok := m.(*sei.TimeCodeSEI); ok && tc != nil {
+					return fmt.Sprint(len(tc.Clocks))
+				}
+				return "?"
+			}
 		}},
 		// arg: bit0 = HRD present; bits 1-5 cpb len-1; 6-10 dpb len-1; 11-15 time offset len
 		target{"sei.DecodePicTimingAvcSEIHRD", false, func(in []byte, arg int) (string, func() string) {
@@ -395,7 +411,12 @@ func init() {
 			if err == nil && m != nil {
 				sink = useMsgs([]sei.SEIMessage{m})
 			}
-			return errClass(err), nil
+			return errClass(err), func() string {
+				if pt, ok := m.(*sei.PicTimingAvcSEI); ok && pt != nil {
+					return fmt.Sprint(len(pt.Clocks))
+				}
+				return "?"
+			}
 		}},
 		// arg: bits 0-3 the four flags; 4-8, 9-13, 14-18, 19-23 the four length-1 fields
 		target{"sei.DecodePicTimingHevcSEI", false, func(in []byte, arg int) (string, func() string) {
@@ -452,7 +473,7 @@ func init() {
 		target{"sei.ParseCEA608", false, func(in []byte, arg int) (string, func() string) {
 			a, b, err := sei.ParseCEA608(in)
 			sink = [][]byte{a, b}
-			return errClass(err), nil
+			return errClass(err), func() string { return hx.Hex(a) + ";" + hx.Hex(b) }
 		}},
 		// ---- AAC, AV1
 		target{"aac.DecodeADTSHeader", false, func(in []byte, arg int) (string, func() string) {
@@ -460,7 +481,12 @@ func init() {
 			if err == nil && h != nil {
 				sink = []interface{}{h.Encode(), h.Frequency(), off}
 			}
-			return errClass(err), nil
+			return errClass(err), func() string {
+				if h == nil {
+					return ""
+				}
+				return fmt.Sprintf("%x,%x,%x,%x", off, h.HeaderLength, h.PayloadLength, h.SamplingFrequencyIndex)
+			}
 		}},
 		target{"aac.DecodeAudioSpecificConfig", false, func(in []byte, arg int) (string, func() string) {
 			a, err := aac.DecodeAudioSpecificConfig(bytes.NewReader(in))
@@ -468,7 +494,12 @@ func init() {
 				var b bytes.Buffer
 				_ = a.Encode(&b)
 			}
-			return errClass(err), nil
+			return errClass(err), func() string {
+				if a == nil {
+					return ""
+				}
+				return fmt.Sprintf("%x,%x,%x", a.ObjectType, a.ChannelConfiguration, a.SamplingFrequency)
+			}
 		}},
 		target{"av1.DecodeAV1CodecConfRec", false, func(in []byte, arg int) (string, func() string) {
 			r, err := av1.DecodeAV1CodecConfRec(in)
